@@ -51,6 +51,27 @@ def rename (w : World) (a b : Nat) : World × Res :=
     if exists? w b then (w, .err)
     else ({ (setDef (dropDef w a) b t) with hist := Hist.rename w.hist a b }, .ok)
 
+/-- client `Rename` as called with SPELLED names (Defs/Names.lean: several spellings denote one file; `a`, `b`
+    are the keys = resolved files). `srcLit` / `dstLit`: the spelling of the old / new name carries an extension
+    that `fileLocation` rewrites (`x.yml` -> `x.yaml`), which `dagStore.Find` takes literally, so `Find` does not
+    see the file the store reads / writes for that spelling (`= !findsOwnFile spelling`).
+      1. `Find(oldID)` fails for such a source spelling (and for a missing source): refused, nothing changed;
+      2. `dagStoreImpl.Rename`: same file -> `os.Rename(f, f)`, a no-op; another file that exists -> refused;
+      3. `Find(newID)` fails for such a target spelling AFTER the file has moved: an error is returned and the
+         history stays under the old name (finding `Frename-yml-target`, open; with the pending fix
+         `pending_fixes/Frename-yml-target-not-applied.diff` step 3 looks up the file the store wrote, `dstLit`
+         plays no role any more and the last-but-one branch disappears);
+      4. the history follows (`Hist.rename`; onto itself: nothing moves). -/
+def renameSp (w : World) (a b : Nat) (srcLit dstLit : Bool) : World × Res :=
+  if srcLit then (w, .err)
+  else match lookup w a with
+  | none => (w, .err)
+  | some t =>
+    if a = b then (w, if dstLit then .err else .ok)
+    else if exists? w b then (w, .err)
+    else if dstLit then (setDef (dropDef w a) b t, .err)
+    else ({ (setDef (dropDef w a) b t) with hist := Hist.rename w.hist a b }, .ok)
+
 /-- client `DeleteDAG`: history first (`RemoveAll`), then the file (error if it does not exist) -/
 def delete (w : World) (n : Nat) : World × Res :=
   let w1 := { w with hist := Hist.removeOld w.hist n 0 }
